@@ -89,11 +89,15 @@ def main():
     subprocess.run(["git", "-C", a.repo, "worktree", "add", "--detach", "-q", wt, "HEAD"], check=True)
     try:
         for k, (f, i, ln, kind, desc) in enumerate(picked):
-            rec = {"file": f, "id": i, "line": ln, "kind": kind, "desc": desc}
+            rec = {"file": f, "id": i, "line": ln, "kind": kind, "desc": desc, "result": "error"}
             t0 = time.time()
             subprocess.run([mutgen, "-file", os.path.join(a.repo, f), "-id", str(i), "-out", os.path.join(wt, f)], check=True)
             try:
-                p = subprocess.run(["go", "build", "./..."], cwd=wt, env=goenv(), stdout=subprocess.PIPE, stderr=subprocess.STDOUT, text=True, timeout=300)
+                try:
+                    p = subprocess.run(["go", "build", "./..."], cwd=wt, env=goenv(), stdout=subprocess.PIPE, stderr=subprocess.STDOUT, text=True, timeout=300)
+                except subprocess.TimeoutExpired:
+                    rec["result"] = "nobuild"
+                    continue
                 if p.returncode != 0:
                     rec["result"] = "nobuild"
                     continue
